@@ -14,6 +14,13 @@ Three parts (labelled in the evidence):
      and generated sources assembled under pairwise-covering report-option subsets, cwd / -o variants, LANG/LC_ALL,
      argv vs ASCMD vs @keyfile, repeated runs; sha of .p must be identical, listing/MAP/share reproducible modulo
      the date/time stamp.  The spec of Spec/Options.lean is evaluated on the probe's traces as well.
+ Key files are treated as FILES everywhere (render_keyfile): LF / CR-LF / mixed line ends, last line with or without line end,
+ empty / blank-only / comment lines, blanks before, between and after the parameters, one switch per line ... lines filled up to
+ the documented 255 characters, key file references inside key files; the reader (fgets / ReadLn / the feof loop of ProcessFile)
+ is part of Model/CmdArg.lean (keyFileLines) and of the theorems (C17_keyfile_reader, C17_keyfile_layout, C17_keyfile_final_line_end,
+ C17_keyfile_as_argv).  (C2) run_placement: small programs whose code depends on every option of a random set of CODE-AFFECTING
+ options (-D in several spellings, -cpu, -i, -U, -relaxed), the options given on the command line, in ASCMD, in key files named on
+ the command line / by ASCMD / split over both, each in random layouts - same code file required, control run without options.
 """
 import hashlib
 import json
@@ -118,9 +125,9 @@ int main(int argc, char **argv) {
     }
     { char *e = unhex(E); setenv("C17CMD", e, 1); }
     unlink("K");
-    if (strcmp(K, "none")) {
-      FILE *f = fopen("K", "w");
-      for (tok = strtok_r(K, ";", &sv); tok; tok = strtok_r(NULL, ";", &sv)) { char *t = unhex(tok); fputs(t, f); fputc('\n', f); }
+    if (strcmp(K, "none")) {           /* K = the key file's raw content (every byte, line ends included), "-" = empty file */
+      FILE *f = fopen("K", "wb");
+      if (strcmp(K, "-")) { size_t kn = strlen(K) / 2, ki; for (ki = 0; ki < kn; ki++) { unsigned v; sscanf(K + 2 * ki, "%2x", &v); fputc((int)v, f); } }
       fclose(f);
     }
     av[ac++] = "probe";
@@ -278,6 +285,139 @@ def gen_param(rng, tab):
     return [rng.choice(ARG_POOL)]
 
 
+# --------------------------------------------------------------------------
+# key files as FILES: the layouts a user (or an editor / a script) may produce.  A key file is rendered from the parameter lists
+# of its lines; the layout is random: LF / CR-LF / mixed line ends, the last line with or without line end, empty and blank-only
+# lines, blanks before / after / several between the parameters, lines padded up to the documented 255 characters.
+
+KEY_LINE_MAX = 255      # doc/assembler-usage.md: "several lines each with a maximum length of 255 characters"
+
+
+def key_groups(params):
+    """a flat parameter list as units that must stay on one line: a switch together with the parameters that follow it"""
+    groups, cur = [], []
+    for p in params:
+        if p[:1] in "-+" and cur:
+            groups.append(cur); cur = []
+        cur.append(p)
+    if cur:
+        groups.append(cur)
+    return groups
+
+
+def pack_lines(rng, groups, mode=None):
+    """distribute the units over lines: one per line, a few per line, as many as the documented line length allows, all in one"""
+    mode = mode or rng.choice(["one", "few", "fill", "fill", "single"])
+    lines, cur = [], []
+    for g in groups:
+        cand = cur + g
+        full = len(" ".join(cand)) > KEY_LINE_MAX
+        if cur and (full or mode == "one" or (mode == "few" and rng.random() < 0.45)):
+            lines.append(cur); cur = list(g)
+        else:
+            cur = cand
+    if cur:
+        lines.append(cur)
+    return lines, mode
+
+
+def render_keyfile(rng, lines, final=None, eol=None, dirty=False, comments=False):
+    """parameter lists -> (text of the key file, parameter lists of its lines incl. inserted empty ones, layout description).
+    `dirty`: additionally things the manual says nothing about (tabs, a lone CR, Ctrl-Z, form feed, NUL, overlong lines) - for
+    model-vs-real comparison only."""
+    eol = eol or rng.choice(["lf", "lf", "crlf", "crlf", "mixed"])
+    final = final or rng.choice(["eol", "none", "none"])
+    lines = [list(l) for l in lines]
+    desc = {"eol": eol, "final": final}
+    # empty / blank-only lines anywhere
+    if rng.random() < 0.5:
+        for _ in range(rng.randrange(1, 4)):
+            lines.insert(rng.randrange(0, len(lines) + 1), [])
+        desc["empty_lines"] = 1
+    if comments and rng.random() < 0.3:
+        # lines whose first non-blank character is ';' are skipped by cmdarg.c (the manual does not mention them; the parameter-list
+        # spec is simply not shown these lines) - also as the last, unterminated line
+        for _ in range(rng.randrange(1, 3)):
+            lines.insert(rng.randrange(0, len(lines) + 1), None)
+        desc["comment_lines"] = 1
+    bodies = []
+    for l in lines:
+        if l is None:
+            bodies.append(rng.choice(["", " ", "   "]) + rng.choice([";", "; comment -L", ";-L -u", ";;", "; @K"]))
+            continue
+        if not l:
+            bodies.append(rng.choice(["", "", " ", "    "]))
+            continue
+        style = rng.choice(["plain", "plain", "lead", "trail", "multi", "all", "pad"])
+        seps = [" " * (rng.choice([2, 3, 7]) if style in ("multi", "all") and rng.random() < 0.6 else 1) for _ in l[:-1]] + [""]
+        b = "".join(t + sp for t, sp in zip(l, seps))
+        if style in ("lead", "all"):
+            b = " " * rng.randrange(1, 5) + b
+        if style in ("trail", "all"):
+            b = b + " " * rng.randrange(1, 5)
+        if len(b) > KEY_LINE_MAX:           # the extra blanks must not push the line over the documented maximum
+            b = " ".join(l)
+        if style == "pad" and len(b) < KEY_LINE_MAX - 6:
+            # up to the documented maximum (and one / two characters below it), blanks at the end or between two parameters
+            target = KEY_LINE_MAX - rng.choice([0, 0, 1, 2, 3])
+            fill = " " * (target - len(b))
+            if len(l) > 1 and rng.random() < 0.5:
+                cut = b.index(" ")
+                b = b[:cut] + fill + b[cut:]
+            else:
+                b = b + fill
+            desc["padded_to"] = target
+        desc[style] = desc.get(style, 0) + 1
+        bodies.append(b)
+    if dirty:
+        for i in range(len(bodies)):
+            r = rng.random()
+            if r < 0.25 and bodies[i]:
+                bodies[i] = bodies[i].replace(" ", rng.choice(["\t", " \t", "\t ", "\t\t", "\x0c", "\x0b "]), rng.choice([1, 1, 9]))
+            elif r < 0.35:
+                bodies[i] += rng.choice(["\x1a", "\r", "\t", "\x1a\r", "\r\x1a", "\r\r"])
+            elif r < 0.42 and bodies[i]:
+                k = rng.randrange(0, len(bodies[i]) + 1)
+                bodies[i] = bodies[i][:k] + rng.choice(["\x00", "\r", "\x1a"]) + bodies[i][k:]
+            elif r < 0.55 and bodies[i]:
+                # longer than one ReadLn chunk: the line is cut after 255 characters
+                target = rng.choice([256, 257, 300, 509, 510, 511, 520])
+                if len(bodies[i]) < target:
+                    fill = rng.choice([" ", "x", " y"]) * target
+                    k = rng.randrange(0, len(bodies[i]) + 1)
+                    bodies[i] = (bodies[i][:k] + fill)[:target - len(bodies[i]) + k] + bodies[i][k:]
+        desc["dirty"] = 1
+    text = ""
+    for i, b in enumerate(bodies):
+        e = {"lf": "\n", "crlf": "\r\n"}.get(eol) or rng.choice(["\n", "\r\n"])
+        if i == len(bodies) - 1 and final == "none":
+            e = ""
+        text += b + e
+    if dirty and rng.random() < 0.2:
+        text += rng.choice(["\x1a", "\r", "\x1a\n", "\n\n"])
+    return text, [l for l in lines if l is not None], desc
+
+
+def fixed_key_cases(idents):
+    """deterministic regression cases, run first: one option set written into a key file in the layouts that matter (every final
+    line end, CR-LF, empty lines, blanks, one line), referenced from the command line and from ASCMD; the spec reads the raw file"""
+    tab = [(i, KIND_OF.get(i, 0)) for i in idents][:64]
+    T = ",".join("%s:%d" % (hx(i), k) for i, k in tab)
+    texts = ["-u -C\n-D FILL=55h\n-D BASE=2000h\n", "-u -C\n-D FILL=55h\n-D BASE=2000h", "-D FILL=55h -D BASE=2000h -u -C",
+             "-u -C\r\n-D FILL=55h\r\n-D BASE=2000h\r\n", "-u -C\r\n-D FILL=55h\r\n-D BASE=2000h", "-D BASE=2000h\r",
+             "\n\n  -u   -C  \n\n -D FILL=55h\n   \n-D   BASE=2000h  ", "", "\n", "-L", " -L", "-L ", "-L\n\n", "-i\nx", "-i x\n-i",
+             "-cpu z80 -x" + " " * 244, "-cpu z80 -x" + " " * 243 + "\n", "-cpu z80" + " " * 242 + "-x -g\r\nMAP"]
+    out = []
+    for t in texts:
+        for E, A in (("-", ["@K", "a.asm"]), (hx("@K"), ["a.asm"]), ("-", ["-q", "@K", "-t", "3"])):
+            out.append(dict(cls="keyfixed", req="T=%s E=%s K=%s A=%s" % (T, E, hx(t), ",".join(hx(a) for a in A)),
+                            spec=" SE=%s SK=raw" % ("@" if E != "-" else ""), n=0, layout=None))
+    return out
+
+
+OPT_CLASSES = ["argv", "env", "keyenv", "keyargv", "mixed", "multiline", "dirty", "nested", "keylayout", "keydirty"]
+
+
 def gen_opt_case(rng, idents, idx):
     """returns dict(request fields) for probe + driver; tokens are 'clean' except in the dirty classes"""
     tab = gen_table(rng, idents)
@@ -286,11 +426,12 @@ def gen_opt_case(rng, idents, idx):
     params = []
     for _ in range(n):
         params += gen_param(rng, tab)
-    cls = ["argv", "env", "keyenv", "keyargv", "mixed", "multiline", "dirty", "nested"][idx % 8]
+    cls = OPT_CLASSES[idx % len(OPT_CLASSES)]
     # env lines must not begin with ';' (comment) - keep the interesting token elsewhere
     def noc(ps):
         return ps if not ps or not ps[0].startswith(";") else ps[1:] + ps[:1] if len(ps) > 1 and not ps[1].startswith(";") else ["x"] + ps
     E, K, A, SE, SK = "-", "none", [], [], "none"
+    layout = None
     if cls == "argv":
         A = params
     elif cls == "env":
@@ -298,15 +439,15 @@ def gen_opt_case(rng, idents, idx):
         E = hx(" ".join(ps)); SE = ps
     elif cls == "keyenv":
         ps = noc(params)
-        E = hx("@K"); K = hx(" ".join(ps)) if ps else "-"; SE = "@"; SK = ",".join(hx(t) for t in ps)
+        E = hx("@K"); K = hx(" ".join(ps) + "\n"); SE = "@"; SK = ",".join(hx(t) for t in ps)
         if not ps:
-            K = "-"; SK = ""
+            SK = ""
     elif cls == "keyargv":
         ps = noc(params)
         pre = gen_param(rng, tab) if rng.random() < 0.5 else []
         post = gen_param(rng, tab) if rng.random() < 0.5 else []
         A = pre + ["@K"] + post
-        K = hx(" ".join(ps)); SK = ",".join(hx(t) for t in ps)
+        K = hx(" ".join(ps) + "\n"); SK = ",".join(hx(t) for t in ps)
     elif cls == "mixed":
         cut = rng.randrange(0, len(params) + 1)
         ps = noc(params[:cut])
@@ -324,10 +465,41 @@ def gen_opt_case(rng, idents, idx):
         if rng.random() < 0.3:
             lines.insert(rng.randrange(0, len(lines) + 1), [";", "comment", "-L"])   # comment line
         A = ["@K"]
-        K = ";".join(hx(" ".join(l)) for l in lines) if lines else "-"
+        K = hx("".join(" ".join(l) + "\n" for l in lines) or "\n")
         SK = ";".join(",".join(hx(t) for t in l) for l in lines if not l[0].startswith(";"))
         if not lines:
             SK = ""
+    elif cls in ("keylayout", "keydirty"):
+        # the key file as a FILE: random layout (line ends, final line end or none, empty lines, blanks, lines up to 255 characters);
+        # referenced from the command line (in the middle of other parameters) or from ASCMD
+        lines, cur = [], []
+        for p in params:
+            cur.append(p)
+            if rng.random() < 0.35:
+                lines.append(cur); cur = []
+        if cur:
+            lines.append(cur)
+        lines = [noc(l) for l in lines]
+        if lines and rng.random() < 0.15:
+            # a key file reference inside a key file: "not allowed and will be answered with an error message"
+            l = rng.choice(lines)
+            l.insert(rng.randrange(0, len(l) + 1), rng.choice(["@K", "@K", "@other.key"]))
+        text, slines, desc = render_keyfile(rng, lines, dirty=(cls == "keydirty"), comments=True)
+        K = hx(text)
+        SK = ";".join(",".join(hx(t) for t in l) for l in slines if l)
+        if cls == "keylayout" and "comment_lines" not in desc and rng.random() < 0.7:
+            SK = "raw"      # the spec reads the file itself: text lines, blank-separated words (Spec/Options.lean keyFileParams)
+            desc["spec_reads_raw_file"] = 1
+        if rng.random() < 0.5:
+            E = hx("@K"); SE = "@"
+            A = gen_param(rng, tab) if rng.random() < 0.3 else []
+        else:
+            pre = gen_param(rng, tab) if rng.random() < 0.4 else []
+            post = gen_param(rng, tab) if rng.random() < 0.4 else []
+            A = pre + ["@K"] + post
+        if cls == "keydirty":
+            SE = None                       # model vs real only
+        layout = desc
     elif cls == "dirty":
         # separators: several blanks, leading/trailing blanks, tabs (model vs real only; the spec is not asked)
         ps = noc(params)
@@ -341,13 +513,13 @@ def gen_opt_case(rng, idents, idx):
         pos = rng.randrange(1, len(ps) + 1)     # an ASCMD value that *starts* with '@' names a key file
         ps = ps[:pos] + ["@K"] + ps[pos:]
         E = hx(" ".join(ps)); SE = ps
-        K = hx("-L")
+        K = hx("-L\n")
         SK = hx("-L")
     req = "T=%s E=%s K=%s A=%s" % (T, E, K, ",".join(hx(t) for t in A))
     spec = None
     if SE is not None:
         spec = " SE=%s SK=%s" % ("@" if SE == "@" else ",".join(hx(t) for t in SE), SK)
-    return dict(cls=cls, req=req, spec=spec, n=len(params))
+    return dict(cls=cls, req=req, spec=spec, n=len(params), layout=layout)
 
 
 def strip_flags(real):
@@ -495,6 +667,143 @@ def run_asl(bdir, cwd, params, env=None, timeout=120):
     return r
 
 
+# --------------------------------------------------------------------------
+# (C) option placement: the same CODE-AFFECTING options on the command line, in ASCMD, in key files of every layout
+
+PLACE_CPUS = ["z80", "8080", "8051", "8086", "z180"]
+PLACE_REPORT = [["-u"], ["-C"], ["-x"], ["-s"], ["-A"], ["-n"], ["-x", "-x"], ["-I"], ["-r", "2"], ["-t", "3"]]
+
+
+def gen_place_case(rng, cdir):
+    """a small program whose code depends on every option of a random set of code-affecting options (-D in several spellings,
+    -cpu, -i, -U, -relaxed) + some report options; returns (source text, list of option units)"""
+    files = {}
+    feats = [f for f in ["D1", "D2", "cpu", "inc", "U", "relaxed"] if rng.random() < 0.6]
+    if len(feats) < 2:
+        feats = rng.sample(["D1", "D2", "cpu", "inc", "U", "relaxed"], 2)
+    src, units = [], []
+    if "cpu" in feats:
+        units.append([rng.choice(["-cpu", "-CPU", "-Cpu"]), rng.choice(PLACE_CPUS)])
+    else:
+        src.append("\tcpu\t" + rng.choice(PLACE_CPUS))
+    src += ["\tifndef\tFILL", "FILL\tequ\t0ffh", "\tendif", "\tifndef\tBASE", "BASE\tequ\t1000h", "\tendif",
+            "\tifndef\tEXTRA", "EXTRA\tequ\t1", "\tendif", "\torg\tBASE", "start:\tdb\tFILL,EXTRA", "\tdw\tstart"]
+    if "D1" in feats:
+        units.append(["-D", "FILL=%d" % rng.randrange(2, 250)])
+    if "D2" in feats:
+        base, extra = "BASE=%d" % rng.choice([0x2000, 0x300, 0x4440]), "EXTRA=%d" % rng.randrange(2, 250)
+        if rng.random() < 0.5:
+            units.append(["-D", base + "," + extra])
+        else:
+            units += [["-D", base], ["-D", extra]]
+    if "inc" in feats:
+        d = os.path.join(cdir, "inc%d" % rng.randrange(3))
+        os.makedirs(d, exist_ok=True)
+        files[os.path.join(d, "plc.inc")] = "INCV\tequ\t%d\n" % rng.randrange(1, 255)
+        open(os.path.join(d, "plc.inc"), "w").write(files[os.path.join(d, "plc.inc")])
+        units.append(["-i", d])
+        src += ["\tinclude\t\"plc.inc\"", "\tdb\tINCV"]
+    if "U" in feats:
+        units.append(["-U"])
+        src += ["Foo\tequ\t%d" % rng.randrange(1, 99), "foo\tequ\t%d" % rng.randrange(100, 199), "\tdb\tFoo,foo"]
+    if "relaxed" in feats:
+        units.append([rng.choice(["-relaxed", "-RELAXED"])])
+        src.append("\tdb\t0x%02x" % rng.randrange(256))
+    for u in rng.sample(PLACE_REPORT, rng.randrange(0, 4)):
+        units.append(list(u))
+    rng.shuffle(units)
+    return "\n".join(src) + "\n", units, feats, files
+
+
+def run_placement(bdir, wd, rng, n_cases, bump, spec_fail, samples):
+    """returns the number of asl runs.  Per case: reference = all options on the command line; then ASCMD, key files (named on the
+    command line / by ASCMD / both, options split between them) in random layouts, always including a file whose LAST line has no
+    line end and one written with CR-LF; control = no options at all (must NOT give the reference code, otherwise the case says nothing)."""
+    runs = 0
+    pdir = os.path.join(wd, "place")
+    os.makedirs(pdir, exist_ok=True)
+    for ci in range(n_cases):
+        cdir = os.path.join(pdir, "c%d" % ci)
+        os.makedirs(cdir, exist_ok=True)
+        text, units, feats, files = gen_place_case(rng, cdir)
+        asm = os.path.join(cdir, "prog.asm")
+        open(asm, "w").write(text)
+        files[asm] = text
+        flat = [p for u in units for p in u]
+
+        def go(tag, argv_opts, env=None, keyfiles=None):
+            outp = os.path.join(cdir, tag + ".p")
+            argv = ["-q"] + list(argv_opts) + [asm, "-o", outp]
+            rc, so, se = run_asl(bdir, cdir, argv, env=env)
+            data = open(outp, "rb").read() if os.path.exists(outp) else None
+            return dict(tag=tag, rc=rc, p=data, argv=argv, env=dict(env or {}), cwd=cdir, keyfiles=dict(keyfiles or {}),
+                        out=(so + se).decode(errors="replace")[-400:])
+
+        def keyfile(name, us, **kw):
+            lines, mode = pack_lines(rng, [list(u) for u in us])
+            t, _, desc = render_keyfile(rng, lines, **kw)
+            path = os.path.join(cdir, name)
+            open(path, "wb").write(t.encode("latin-1"))
+            for k_, v_ in desc.items():
+                if isinstance(v_, str):
+                    bump("place:keyfile_layout:%s=%s" % (k_, v_))
+            bump("place:keyfile_packing:" + mode)
+            return path, {path: t.encode("latin-1").hex()}
+
+        ref = go("argv", flat)
+        ctl = go("control", [])
+        runs += 2
+        if ref["rc"] != 0 or ref["p"] is None:
+            bump("place:reference_rejected")
+            log("C17: placement reference rejected (%s): %s" % (" ".join(flat), ref["out"][-200:]))
+            continue
+        if ctl["p"] == ref["p"]:
+            bump("place:insensitive_case")
+            continue
+        variants = [go("ascmd", [], env={"ASCMD": " ".join(flat)})]
+        bump("place:via_ascmd")
+        # key file on the command line: random layout, forced 'no final line end', forced CR-LF
+        for tag, kw in (("kf_rand", {}), ("kf_nofinal", {"final": "none"}), ("kf_crlf", {"eol": "crlf"})):
+            path, kfs = keyfile(tag + ".key", units, **kw)
+            variants.append(go(tag, ["@" + path], keyfiles=kfs))
+            bump("place:via_keyfile_argv")
+        for tag, kw in (("ke_rand", {}), ("ke_nofinal", {"final": "none"})):
+            path, kfs = keyfile(tag + ".key", units, **kw)
+            variants.append(go(tag, [], env={"ASCMD": "@" + path}, keyfiles=kfs))
+            bump("place:via_keyfile_ascmd")
+        # split: first part in the key file named by ASCMD, middle on the command line, rest in a key file on the command line
+        c1 = rng.randrange(0, len(units) + 1)
+        c2 = rng.randrange(c1, len(units) + 1)
+        kfs = {}
+        argv_opts = [p for u in units[c1:c2] for p in u]
+        env = {}
+        if c1:
+            path, k1 = keyfile("sp_env.key", units[:c1]); kfs.update(k1); env["ASCMD"] = "@" + path
+        if c2 < len(units):
+            path, k2 = keyfile("sp_argv.key", units[c2:]); kfs.update(k2); argv_opts += ["@" + path]
+        variants.append(go("split", argv_opts, env=env, keyfiles=kfs))
+        bump("place:via_split")
+        runs += len(variants)
+        bump("place:cases")
+        for f in feats:
+            bump("place:feature_" + f)
+        for v in variants:
+            if v["rc"] != ref["rc"] or v["p"] != ref["p"]:
+                same_as_ctl = v["p"] == ctl["p"] and v["rc"] == ctl["rc"]
+                spec_fail.append(dict(tag="option-placement:" + v["tag"], sig=None, source=text, source_text=text,
+                                      why="the options %s give a different result when they are not on the command line (%s): rc %s vs %s, code file %s%s; %s"
+                                          % (" ".join(flat), v["tag"], v["rc"], ref["rc"],
+                                             "missing" if v["p"] is None else "differs" if v["p"] != ref["p"] else "equal",
+                                             " - it equals the code assembled with NO options" if same_as_ctl else "", v["out"][-200:].strip()),
+                                      files={k_: v_.encode("latin-1").hex() for k_, v_ in files.items()},
+                                      baseline=dict(argv=ref["argv"], env={}, cwd=cdir),
+                                      variant=dict(argv=v["argv"], env=v["env"], cwd=cdir, keyfiles=v["keyfiles"])))
+        if ci == 0:
+            samples.append(dict(kind="option-placement", options=" ".join(flat), features=feats, places=[v["tag"] for v in variants]))
+        shutil.rmtree(cdir, ignore_errors=True)
+    return runs
+
+
 GEN_PROGS = [
     ("g68k", "\tcpu 68000\n\torg $1000\nstart:\tmove.w #$1234,d0\n\tdc.w $1234,$5678\n\tdc.l $89abcdef\n\tdc.b 1,2,3\n\tbra.s start\nfwd2:\tdc.w fwd-start\nfwd:\tnop\n\tend start\n"),
     ("gz80", "\tcpu z80\n\torg 100h\nl1:\tld a,5\n\tjp l2\n\tdb 1,2,3,\"abc\"\n\tdw l1,l2\nl2:\tret\nm\tmacro x\n\tdb x,x+1\n\tendm\n\tm 7\n\tm 9\n\tds 4\n\tdb 0ffh\n"),
@@ -559,9 +868,9 @@ def run(args):
         except tables.ExtractError as ex:
             proof_problems.append("probe: " + str(ex))
             cmdprobe = asprobe = None
-        n_opt = {"quick": 3200, "thorough": 40000}[args.tier]
+        n_opt = {"quick": 4000, "thorough": 50000}[args.tier]
         if cmdprobe and ok:
-            cases = [gen_opt_case(rng, idents, i) for i in range(n_opt)]
+            cases = fixed_key_cases(idents) + [gen_opt_case(rng, idents, i) for i in range(n_opt)]
             pw = os.path.join(wd, "probe")
             os.makedirs(pw, exist_ok=True)
             rc, real, err = run_probe(cmdprobe, bdir, pw, [c["req"] for c in cases])
@@ -572,6 +881,9 @@ def run(args):
             for c, r, m in zip(cases, real, model):
                 evaluations += 1
                 bump("opt:" + c["cls"])
+                if c.get("layout"):
+                    for k_, v_ in c["layout"].items():
+                        bump("opt:keyfile_layout:%s%s" % (k_, "=" + v_ if isinstance(v_, str) else ""))
                 kv = dict(x.split("=", 1) for x in m.split(" ") if "=" in x)
                 mm = kv.get("m", "")
                 mcore = ";".join(p for p in mm.split(";") if not p.startswith("nokey:") and not p.startswith("ub:"))
@@ -593,6 +905,8 @@ def run(args):
                 if len(samples) < 2 and ncalls >= 3 and c["cls"] in ("multiline", "mixed"):
                     samples.append(dict(kind="option-sources", cls=c["cls"], request=c["req"][c["req"].index(" E="):], real_trace=r))
 
+        if os.environ.get("C17_TIMES"):
+            log("C17: section 'B1 option sources' done at %.1f s" % (__import__("time").time() - res.t0))
         # ------------------------------------------------------------------ (B2) DreheCodes probe vs model
         if asprobe and ok:
             reqs = []
@@ -621,6 +935,8 @@ def run(args):
             if real:
                 samples.append(dict(kind="drehe", request=reqs[5], real=real[5] if len(real) > 5 else None))
 
+        if os.environ.get("C17_TIMES"):
+            log("C17: section 'B2 drehe' done at %.1f s" % (__import__("time").time() - res.t0))
         # ------------------------------------------------------------------ (C) differential on real asl
         tests = common.corpus_tests()
         if args.tier == "quick":
@@ -665,46 +981,34 @@ def run(args):
                 tail = [asm, "-o", outp, "-shareout", sh]
                 params = base + list(extra)
                 envd = dict(env or {})
+                keyfiles = {}
                 if via == "argv":
                     argv = params + tail
                 elif via == "ascmd":
                     envd["ASCMD"] = " ".join(params)
                     argv = tail
-                elif via == "keyfile":
+                else:
+                    # key file named on the command line ("keyfile") or by ASCMD ("keyascmd"), written in a random layout: one switch
+                    # (with its argument) per line ... as many as the documented 255 characters per line allow; LF / CR-LF;
+                    # last line with or without line end; empty lines; blanks before / between / after the parameters
                     kf = os.path.join(od, tag + ".key")
-                    with open(kf, "w") as f:
-                        # one switch (with its argument) per line
-                        cur = []
-                        for p in params:
-                            if p[:1] in "-+" and cur:
-                                f.write(" ".join(cur) + "\n"); cur = []
-                            cur.append(p)
-                        if cur:
-                            f.write(" ".join(cur) + "\n")
-                    argv = ["@" + kf] + tail
-                else:  # key file named by ASCMD; as few lines as the documented 255 characters per line allow
-                    kf = os.path.join(od, tag + ".key")
-                    groups, cur = [], []
-                    for p in params:
-                        if p[:1] in "-+" and cur:
-                            groups.append(" ".join(cur)); cur = []
-                        cur.append(p)
-                    if cur:
-                        groups.append(" ".join(cur))
-                    with open(kf, "w") as f:
-                        line = ""
-                        for g in groups:
-                            if line and len(line) + 1 + len(g) > 250:
-                                f.write(line + "\n"); line = ""
-                            line = (line + " " + g) if line else g
-                        if line:
-                            f.write(line + "\n")
-                    envd["ASCMD"] = "@" + kf
-                    argv = tail
+                    lines, _mode = pack_lines(srng, key_groups(params), mode=("one" if via == "keyfile" and srng.random() < 0.4 else None))
+                    text, _, desc = render_keyfile(srng, lines)
+                    with open(kf, "wb") as f:
+                        f.write(text.encode("latin-1"))
+                    keyfiles[kf] = text.encode("latin-1").hex()
+                    for k_, v_ in desc.items():
+                        if isinstance(v_, str):
+                            bump("diff:keyfile_layout:%s=%s" % (k_, v_))
+                    if via == "keyfile":
+                        argv = ["@" + kf] + tail
+                    else:
+                        envd["ASCMD"] = "@" + kf
+                        argv = tail
                 rc, so, se = run_asl(bdir, cwd or od, argv, env=envd)
                 data = open(outp, "rb").read() if os.path.exists(outp) else None
                 return dict(tag=tag, rc=rc, p=data, sha=hashlib.sha256(data).hexdigest() if data is not None else None,
-                            argv=argv, env=envd, cwd=cwd or od, out=outp, stdout=so, stderr=se, share=sh)
+                            argv=argv, env=envd, cwd=cwd or od, out=outp, stdout=so, stderr=se, share=sh, keyfiles=keyfiles)
 
             b0 = assemble("base", [])
             evaluations += 1
@@ -767,7 +1071,7 @@ def run(args):
                     spec_fail.append(dict(tag="report-options:" + name, sig=sig, source_text=(open(asm).read() if not name.startswith("t_") else None),
                                           why="code file differs from the baseline (sha %s vs %s, rc %s vs %s)" % (v["sha"], b0["sha"], v["rc"], b0["rc"]),
                                           source=orig_asm, baseline=dict(argv=b0["argv"], env=b0["env"], cwd=b0["cwd"]),
-                                          variant=dict(argv=v["argv"], env=v["env"], cwd=v["cwd"], options=sel, via=via),
+                                          variant=dict(argv=v["argv"], env=v["env"], cwd=v["cwd"], options=sel, via=via, keyfiles=v["keyfiles"]),
                                           stdout=(v["stdout"] + v["stderr"]).decode(errors="replace")[-600:]))
                 else:
                     t_diff += 1
@@ -809,6 +1113,7 @@ def run(args):
             for ext in sorted(set(f1) | set(f2)):
                 if f1.get(ext) != f2.get(ext) and ext not in (".lst", ".map", ".inc"):
                     # outputs the statement does not name (NoICE/ATMEL debug files, -P/-M outputs): recorded, not judged
+                    # (the ATMEL file's defect has its own deterministic probe and known-finding entry below)
                     bump("diff:unstated_output_not_reproducible:" + ext)
                     if len(extra_notes) < 3:
                         extra_notes.append("%s of %s differs between two identical runs (%s)" % (ext, name, " ".join(a for a in r1["argv"] if a.startswith("-") or a in ("MAP", "ATMEL", "NOICE"))[:120]))
@@ -835,6 +1140,14 @@ def run(args):
         bump("diff:sources", n_src)
         bump("diff:identical_code_files", t_diff)
 
+        if os.environ.get("C17_TIMES"):
+            log("C17: section 'C differential' done at %.1f s" % (__import__("time").time() - res.t0))
+        # ------------------------------------------------------------------ (C2) placement of code-affecting options
+        evaluations += run_placement(bdir, wd, common.rng_for(args.seed, "C17/place"), {"quick": 40, "thorough": 600}[args.tier],
+                                     bump, spec_fail, samples)
+
+        if os.environ.get("C17_TIMES"):
+            log("C17: section 'C2 placement' done at %.1f s" % (__import__("time").time() - res.t0))
         # ------------------------------------------------------------------ (B3) pipeline model payload vs real .p (68000/C3x/Z80 data lines)
         if ok:
             preqs, pmeta = [], []
@@ -914,6 +1227,38 @@ def run(args):
                                   why="a source without \\{...} that calls a user-defined FUNCTION assembles (rc 0) but fails under -SPLITBYTE (rc=%s): %s" % (rc_s, (so_s + se_s).decode(errors="replace")[-160:]),
                                   source=fsrc, baseline=dict(argv=["-q", "many.asm"]), variant=dict(argv=["-q", "-SPLITBYTE", ":", "-q", "many.asm"])))
 
+        # -g ATMEL on a target whose code is counted in bytes: asmdebug.c AddLineInfo writes one record per unit of CodeLen and takes
+        # WAsmCode[z] (16-bit words) for it, i.e. it reads 2*CodeLen bytes of the code buffer although CodeLen bytes were generated.
+        # The property statement names listing, MAP and share as reproducible outputs; the ATMEL object file is the same debug
+        # information as MAP in another format, and what ends up in it here is whatever the heap held (read beyond the generated
+        # code, for longer lines beyond the allocated buffer) - recorded as a known finding, not silently as a note.
+        asrc = "\tcpu z80\n\torg 100h\nl1:\tld a,5\n\tjp l2\n\tdb 1,2,3,\"abc\"\n\tdw l1,l2\nl2:\tret\n"
+        f = os.path.join(wd, "atm.asm")
+        open(f, "w").write(asrc)
+        objs, codes, maps = [], [], []
+        for i in range(3):
+            for fmt, coll, ext in (("ATMEL", objs, ".obj"), ("MAP", maps, ".map")):
+                dbg = os.path.join(wd, "atm" + ext)
+                if os.path.exists(dbg):
+                    os.unlink(dbg)
+                outp = os.path.join(wd, "atm_%s%d.p" % (fmt, i))
+                rc, so, se = run_asl(bdir, wd, ["-q", "-g", fmt, "-q", f, "-o", outp])
+                evaluations += 1
+                codes.append((rc, open(outp, "rb").read() if os.path.exists(outp) else None))
+                for cand in (dbg, os.path.splitext(outp)[0] + ext):
+                    if os.path.exists(cand):
+                        coll.append(normalise(open(cand, "rb").read()))
+                        os.unlink(cand)
+                        break
+        bump("finding_probe:atmel_obj_distinct_contents_in_3_runs", len(set(objs)))
+        if len(set(codes)) != 1 or len(set(maps)) > 1:
+            spec_fail.append(dict(tag="repeat:debug-probe", sig=None, why="code file / MAP file differ between identical runs with -g ATMEL / -g MAP",
+                                  source=asrc, baseline=dict(argv=["-q", "many.asm"]), variant=dict(argv=["-q", "-g", "MAP", "-q", "many.asm"])))
+        elif len(set(objs)) > 1:
+            spec_fail.append(dict(tag="repeat:debug-probe", sig="atmel-debug-file-reads-code-buffer-beyond-generated-code",
+                                  why="three identical runs of asl -g ATMEL on a Z80 source write %d different .obj files (same code file, same MAP file with -g MAP)" % len(set(objs)),
+                                  source=asrc, baseline=dict(argv=["-q", "-g", "ATMEL", "-q", "many.asm"]), variant=dict(argv=["-q", "-g", "ATMEL", "-q", "many.asm"])))
+
         # report options that request additional *warnings* (-u: overlapping memory usage, -r: what forces another pass) under -WERROR
         for tag, opt, psrc in (("u", ["-u"], "\tcpu z80\n\torg 100h\n\tdb 1,2,3\n\torg 101h\n\tdb 9\n"),
                                ("r", ["-r"], "\tcpu 6502\n\torg $200\n\tlda fwd\n\tjmp fwd\n\torg $80\nfwd:\tnop\n")):
@@ -944,13 +1289,16 @@ def run(args):
         "DIFFERENTIAL part (not proof): identical .p across report-option subsets / cwd / -o / LANG / option placement / repeated runs"])
     res.coverage.update(
         evaluations=evaluations, distinct_nontrivial=len(distinct),
-        rule="option cases: random tables over the regenerated ASParams names x 8 source classes (argv, ASCMD, key file via ASCMD / argv, mixed, multi-line, dirty separators, nested reference), "
+        rule="option cases: random tables over the regenerated ASParams names x 10 source classes (argv, ASCMD, key file via ASCMD / argv, mixed, multi-line, dirty separators, nested reference, "
+             "key file layouts [line ends, final line end or none, empty/comment lines, blanks, lines up to 255 characters, nested references], dirty key files [tabs, CR, Ctrl-Z, NUL, overlong lines; model vs real only]), "
              "non-trivial = at least one handler call, distinct by trace; DreheCodes: non-trivial = buffer actually changed; differential: one entry per source assembled under all its configurations",
         samples=samples, distribution=dist)
     res.notes += extra_notes
     res.assumptions = ["the differential part samples configurations (pairwise cover of the report options per source, not all subsets)",
                        "LANG/LC_ALL values without a codeset suffix (C, de_DE, en_US) as in the property statement",
                        "-h / -SPLITBYTE only for sources without \\{...}",
+                       "key files: lines of at most 255 characters, parameters separated by blanks (tabs, control characters, longer lines: model vs real only, the manual says nothing); "
+                       "lines starting with ';' are comments for cmdarg.c - not in the manual, the spec is not shown them",
                        "report-flow inventory: syntactic, flow-insensitive taint over the typed AST of the build configuration in use; calls through "
                        "function pointers resolved by name, heap objects keyed by record type and field, libc by a table; the printf core and the "
                        "message emitters are summarised (Spec/ReportObjects.lean); it shows where report options CAN reach, it does not prove C semantics"]
@@ -959,6 +1307,13 @@ def run(args):
         for src, sig in SOURCE_SIGS.items():
             if f.get("sig") is None and f.get("tag", "").endswith(":" + src):
                 f["sig"] = sig
+    # report one failure of every kind first (common.conclude prints the first five)
+    seen_kinds, first, rest = set(), [], []
+    for f in spec_fail:
+        kind = f.get("tag", "").split(":")[0]
+        (rest if kind in seen_kinds else first).append(f)
+        seen_kinds.add(kind)
+    spec_fail = first + rest
     return common.conclude(res, proof_problems, spec_fail, corr_fail, evaluations)
 
 
@@ -981,6 +1336,12 @@ def replay(args):
                 open(p, "w").write(src)
                 src = p
             shas = {}
+            m0 = re.search(r"(/[^\s\"]*?/w-c17-\d+-\d+)/", json.dumps(d))
+            oldroot = m0.group(1) if m0 else None
+            for fp, fhex in (d.get("files") or {}).items():          # source + include files of a placement case
+                fp2 = fp.replace(oldroot, wd) if oldroot else fp
+                os.makedirs(os.path.dirname(fp2), exist_ok=True)
+                open(fp2, "wb").write(bytes.fromhex(fhex))
             for which in ("baseline", "variant"):
                 c = d.get(which) or {}
                 old = None
@@ -993,6 +1354,8 @@ def replay(args):
                     a = str(a)
                     if old:
                         a = a.replace(old.group(1), wd)
+                    elif oldroot:
+                        a = a.replace(oldroot, wd)
                     return src if a == "many.asm" else a
                 if old:
                     od = os.path.join(wd, old.group(2))
@@ -1003,6 +1366,14 @@ def replay(args):
                         else:
                             os.makedirs(os.path.join(od, "src"))
                             open(os.path.join(od, "src", os.path.basename(d.get("source", "x.asm"))), "w").write(d.get("source_text", ""))
+                for kp, khex in (c.get("keyfiles") or {}).items():      # key files of the original run, byte for byte
+                    kp2 = fix(kp)
+                    os.makedirs(os.path.dirname(kp2), exist_ok=True)
+                    kbytes = bytes.fromhex(khex)
+                    if oldroot:                     # paths inside the key file (-i, -OLIST, -E) point into the original scratch directory
+                        kbytes = kbytes.replace(oldroot.encode(), wd.encode())
+                    open(kp2, "wb").write(kbytes)
+                    print("key file %s: %r" % (kp2, kbytes))
                 argv = [fix(a) for a in c.get("argv", [src])]
                 env = {k: fix(v) for k, v in (c.get("env") or {}).items()}
                 for v in env.values():       # key file named by ASCMD
